@@ -598,6 +598,11 @@ func (s *fsys) observeKernel() (ki []obsItem) {
 			ki = append(ki, obsItem{"attr:" + via, "attr", via, errKind(serr)})
 			fmt.Fprintf(&kb, "| %s:open %s off=%d !stat ", via, fsx.FlagString(sl.flags), off)
 
+			// cannot happen on an open descriptor; keep the two observation lists parallel
+			if readable(sl.flags) {
+				ki = append(ki, obsItem{"content:" + via, "content", via, "!stat"})
+			}
+
 			continue
 		}
 
